@@ -183,6 +183,7 @@ class LemmaCtx:
 class Registry:
     def __init__(self) -> None:
         self.lemmas: Dict[str, Lemma] = {}
+        self.axiom_fns: List[Callable[[Any], List[Any]]] = []     # spec-level definitional axioms
         self.abstract: Dict[str, Contract] = {}
         self.contracts: Dict[Tuple[str, str], Contract] = {}
         self.accept: Dict[str, Contract] = {}
@@ -404,6 +405,8 @@ def verify_function(repo: Repo, ct: M.ClassTable, reg: Registry, con: Contract,
     fr = FuncResult(con.relpath, con.qualname, info.sha256)
     t0 = time.time()
     ex = Exec(repo, ct, reg, fname=f"{con.relpath}:{con.qualname}")
+    for fn_ in reg.axiom_fns:
+        ex.extra_axioms += fn_(ct)
     fr.ex = ex
     ex.current_info = info
     st = State()
